@@ -12,7 +12,7 @@ git -C $src diff > /tmp/mutvet/$id.patch
 git -C /repo worktree add --detach $W HEAD -q || exit 1
 cp -r $demo /tmp/mutvet/${id}_demo
 sed -i "s#=> /tmp/mut/$id#=> $W#" /tmp/mutvet/${id}_demo/go.mod
-run_demo() { (cd /tmp/mutvet/${id}_demo && if ls *_test.go >/dev/null 2>&1; then go test $RACE -vet=off -count=1 ./... ; else go run . ; fi) > /tmp/mutvet/$id.demo.$1 2>&1; echo $?; }
+run_demo() { (cd /tmp/mutvet/${id}_demo && if ls *_test.go >/dev/null 2>&1; then go test ${RACE:-} -vet=off -count=1 ./... ; else go run . ; fi) > /tmp/mutvet/$id.demo.$1 2>&1; echo $?; }
 without=$(run_demo without)
 git -C $W apply /tmp/mutvet/$id.patch || { echo "PATCH DOES NOT APPLY"; git -C /repo worktree remove --force $W; exit 1; }
 (cd $W && go build ./... && go test -vet=off -count=1 ./... 2>&1 | grep -v "no test files") > /tmp/mutvet/$id.suite 2>&1
